@@ -860,6 +860,7 @@ def run(tier):
                      "define the reference game and that make alpha-beta/PVS/ordering value-preserving: the move orderer is a permutation of its input (None iff exhausted, swap confined to the pending part, "
                      "index advanced once per yielded slot, 1:1 construction) and ordering data flow only into score comparisons; every recursive call uses (-beta,-alpha) or the null window (-alpha-1,-alpha) at "
                      "depth-1 with the result negated, re-searching iff alpha < score < beta; cut-offs fire exactly on score >= beta; alpha is raised only from a better score; terminal rules (mate = MIN + ply, "
-                     "stalemate 0, fifty-move and repetition draws before the cache probe, check extension, capture-only quiescence with stand-pat) are as the statement says."),
+                     "stalemate 0, fifty-move and repetition draws before the cache probe, check extension, capture-only quiescence with stand-pat) are as the statement says; the ply counter is raised by one "
+                     "exactly around each child search (pair propagation of counter steps and make/unmake); the PVS structure is decided as a path property, whatever its spelling."),
         assumptions=["the shape rules are specific to fail-hard negamax with PVS; an equivalent but different formulation is reported as cannot-decide"],
         tier=tier)
